@@ -98,6 +98,21 @@ def answer : List String → String
            showBlock (rotateBlock rn { hasGrid := hg, children := ch, orientation := ori,
                                        boundary := bd, disp := d }))
       | _, _, _, _, _ => "bad-op"
+  | ["rot3", n, i, j, k] => match parseInt? n, parseInt? i, parseInt? j, parseInt? k with
+      | some n, some i, some j, some k => showCell (rotateLoc n (i, j, k))
+      | _, _, _, _ => "bad-op"
+  | ["hexequiv3", sy, i, j, k] => match parseNat? sy, parseInt? i, parseInt? j, parseInt? k with
+      | some sy, some i, some j, some k => showOpt (showList showPair) (hexEquivalentsK sy (i, j, k))
+      | _, _, _, _ => "bad-op"
+  | ["line3", i, j, k] => match parseInt? i, parseInt? j, parseInt? k with
+      | some i, some j, some k => toString (lineOfK (i, j, k))
+      | _, _, _ => "bad-op"
+  | ["indomain3", th, ov, i, j, k] => match parseBool? th, parseBool? ov, parseInt? i, parseInt? j, parseInt? k with
+      | some th, some ov, some i, some j, some k => showBool (hexInDomainK th ov (i, j, k))
+      | _, _, _, _, _ => "bad-op"
+  | ["third3", top, i, j, k] => match parseBool? top, parseInt? i, parseInt? j, parseInt? k with
+      | some t, some i, some j, some k => showBool (inFirstThirdK t (i, j, k))
+      | _, _, _, _ => "bad-op"
   | ["ringpos", i, j] => match parseInt? i, parseInt? j with
       | some i, some j => showPair (toRingPos i j)
       | _, _ => "bad-op"
